@@ -325,6 +325,11 @@ Definition run (op : N) (a : V) : V :=
   | 66 (* tcp_recv_n *) =>
       let '(rs, (rest, _)) := tcp_recv_n (N.to_nat (as_n (arg 2 a))) (as_bytes (arg 0 a), as_nats (arg 1 a)) in
       VList [VList (map (v_res VBytes) rs); VBytes rest]
+  | 67 (* tcp_session *) =>
+      let '(rs, ((rest, _), written)) :=
+        tcp_session (as_n (arg 0 a)) (as_n (arg 1 a)) (map as_bytes (as_list (arg 2 a)))
+                    ((as_bytes (arg 3 a), as_nats (arg 4 a)), []) in
+      VList [VList (map (v_res VBytes) rs); VBytes rest; VList (map VBytes written)]
   | 65 (* spec_std_header *) => VBytes (std_header (as_n (arg 0 a)) (as_n (arg 1 a)) (as_n (arg 2 a)) (as_n (arg 3 a)))
   (* ---- date-time codec (C16) ---- *)
   | 70 (* datetime_to_bytes *) => v_res VBytes (datetime_to_bytes (as_dtime (arg 0 a)) (as_opt_cstat (arg 1 a)))
